@@ -79,11 +79,10 @@ func mkWorld(specs []mapSpec, arena bool) *world {
 				ar = append(ar, e.Ms...)
 			}
 		}
+		used := len(ar)
 		ar = ar[:cap(ar)]
-		for i := range ar {
-			if ar[i] == "" {
-				ar[i] = "<spare>"
-			}
+		for i := used; i < len(ar); i++ {
+			ar[i] = "<spare>"
 		}
 	}
 	pos := 0
@@ -222,7 +221,28 @@ func doRead(v *verr.ValidationError, op int) (val readVal, pmsg string) {
 
 // ---------- Coq rendering ----------
 
-func S(s string) string { return `"` + strings.ReplaceAll(s, `"`, `""`) + `"%string` }
+// Every distinct string is written once, as `Definition str_N := "..."%string.`, and referred to by name:
+// coqc interprets each string literal by running a Gallina conversion (about 0.5 ms per literal), which would
+// otherwise dominate the run.  The table rides in front of the cases through the writer's Module line.
+var strTab = map[string]int{}
+var strList []string
+
+func S(s string) string {
+	i, ok := strTab[s]
+	if !ok {
+		i = len(strList)
+		strTab[s] = i
+		strList = append(strList, s)
+	}
+	return fmt.Sprintf("str_%d", i)
+}
+func strPrelude() string {
+	var sb strings.Builder
+	for i, s := range strList {
+		fmt.Fprintf(&sb, ".\nDefinition str_%d : string := \"%s\"%%string", i, strings.ReplaceAll(s, `"`, `""`))
+	}
+	return sb.String()
+}
 func SL(l []string) string {
 	p := make([]string, len(l))
 	for i, x := range l {
@@ -541,7 +561,11 @@ func runRead(stream string, ms []mapSpec, root *node, ops []int, arena bool) {
 		"kind": "reads", "tree": txt, "reads": opn, "arena_slices": arena,
 		"snapshot_before": snapTxt(s0), "snapshot_after": snapTxt(s1), "observed": obsT, "panic": pmsg,
 	}
-	coq := fmt.Sprintf("CRead %s %s %s %s %s %s %s", heapCoq(ms), nodeCoq(root), opsCoq(ops), snapCoq(s0), snapCoq(s1),
+	c0, c1 := snapCoq(s0), snapCoq(s1)
+	if c1 == c0 {
+		c1 = "snap"
+	}
+	coq := fmt.Sprintf("(let snap := %s in CRead %s %s %s snap %s %s %s)", c0, heapCoq(ms), nodeCoq(root), opsCoq(ops), c1,
 		valsCoq(obs), cw.B(pmsg != ""))
 	W.Add(cw.Case{Coq: coq, Desc: desc, Tags: tags,
 		Key:     hashKey(fmt.Sprintf("R|%s|%v|%v", txt, ops, arena)),
@@ -919,8 +943,12 @@ func runAdd(stream string, ms []mapSpec, a1, a2 *arg, same, arena bool) {
 		"e1_before": snapTxt(s1), "e2_before": snapTxt(s2), "panic": pmsg, "result_nil": res == nil && pmsg == "",
 		"result_before_reads": snapTxt(r0), "result_after_reads": snapTxt(r1), "reads_of_result": obsT,
 	}
-	coq := fmt.Sprintf("CAdd %s %s %s %s %s %s %s %s %s %s %s %s", heapCoq(ms), c1, c2, cw.B(same), osnapCoq(s1), osnapCoq(s2),
-		cw.B(pmsg != ""), cw.B(res == nil && pmsg == ""), osnapCoq(r0), osnapCoq(r1), opsCoq(addOps), valsCoq(obs))
+	cr0, cr1 := osnapCoq(r0), osnapCoq(r1)
+	if cr1 == cr0 {
+		cr1 = "snap"
+	}
+	coq := fmt.Sprintf("(let snap := %s in CAdd %s %s %s %s %s %s %s %s snap %s %s %s)", cr0, heapCoq(ms), c1, c2, cw.B(same), osnapCoq(s1), osnapCoq(s2),
+		cw.B(pmsg != ""), cw.B(res == nil && pmsg == ""), cr1, opsCoq(addOps), valsCoq(obs))
 	triv := a1.Kind <= aNilPtr || (!same && a2.Kind <= aNilPtr)
 	W.Add(cw.Case{Coq: coq, Desc: desc, Tags: tags,
 		Key: hashKey(fmt.Sprintf("A|%s|%s|%v|%v", t1, t2, same, arena)), Trivial: triv})
@@ -1038,6 +1066,14 @@ func corpus() {
 		root := &node{Ctor: ctorErrs, Errs: 0, Warns: -1, Kids: []kid{{"a", &node{Ctor: ctorNew, Ctx: "c", Msg: "child"}}}}
 		runRead("corpus", ms, root, []int{rFlatE, rFlatE}, true)
 	}
+	// W7 (harness-level only) AddErrorToValidation must not append into the spare capacity of a slice stored in
+	// its first argument: in arena mode the slice after errors "c" holds the warning "careful", which was lost
+	{
+		ms := []mapSpec{{{"c", []string{"top"}}}, {{"w", []string{"careful"}}}}
+		t1 := &arg{Kind: aVE, N: &node{Ctor: ctorWW, Errs: 0, Warns: 1, KidsNil: true}}
+		t2 := &arg{Kind: aVE, N: &node{Ctor: ctorNew, Ctx: "c", Msg: "more"}}
+		runAdd("corpus", ms, t1, t2, false, true)
+	}
 }
 
 func main() {
@@ -1145,6 +1181,8 @@ func main() {
 	if len(panics) > 0 {
 		W.Extra["panics_observed"] = panics
 	}
+	W.Extra["distinct_strings"] = len(strList)
+	W.Module = "CorrC20" + strPrelude()
 	if err := W.Flush(); err != nil {
 		fmt.Fprintln(os.Stderr, err)
 		os.Exit(1)
